@@ -14,6 +14,7 @@ The confirmed seed is stored as /verif/seeded/<ID>/<variant>/ (patch.diff, demo,
 import argparse, json, os, re, shutil, subprocess, sys, time
 
 ROOT = os.path.dirname(os.path.dirname(os.path.abspath(__file__)))
+FALLBACK_BASE = "2c7f196"   # /repo HEAD before the repair of Binary.Skip's end address (fix: commit after it)
 ENV = dict(os.environ, GOFLAGS="-mod=mod", GOPROXY="off", GOSUMDB="off", GOTOOLCHAIN="local")
 
 def sh(cmd, cwd=None, env=None, timeout=3600):
@@ -26,14 +27,25 @@ def main():
     ap.add_argument("src"); ap.add_argument("pid"); ap.add_argument("variant")
     ap.add_argument("--checks"); ap.add_argument("--tier", default="quick"); ap.add_argument("--keep", action="store_true")
     ap.add_argument("--skip-confirm", action="store_true", help="only run the checks (seed already confirmed)")
+    ap.add_argument("--base", help="commit of /repo to apply the change to (default: HEAD; when the patch does not apply there, "
+                                   "the commit the seeds of rounds 1-7 were written against: " + FALLBACK_BASE + ")")
     a = ap.parse_args()
     checks = a.checks.split(",") if a.checks else [a.pid]
     wt = f"/tmp/sv/{a.pid}_{a.variant}"
     sh(["git", "-C", "/repo", "worktree", "remove", "--force", wt]); shutil.rmtree(wt, ignore_errors=True)
     os.makedirs("/tmp/sv", exist_ok=True)
-    rc, out = sh(["git", "-C", "/repo", "worktree", "add", "--detach", wt])
+    base = a.base or "HEAD"
+    if not a.base:   # does the patch apply to HEAD?  otherwise use the commit it was written against
+        rc, out = sh(["git", "-C", "/repo", "worktree", "add", "--detach", wt, "HEAD"])
+        if rc != 0: print(out); sys.exit(2)
+        rc, out = sh(["git", "apply", "--check", os.path.join(os.path.abspath(a.src), "patch.diff")], cwd=wt)
+        sh(["git", "-C", "/repo", "worktree", "remove", "--force", wt]); shutil.rmtree(wt, ignore_errors=True)
+        if rc != 0: base = FALLBACK_BASE
+    rc, out = sh(["git", "-C", "/repo", "worktree", "add", "--detach", wt, base])
     if rc != 0: print(out); sys.exit(2)
-    rec = dict(property=a.pid, variant=a.variant, ran=[], confirmed=False)
+    rc, out = sh(["git", "-C", "/repo", "rev-parse", "--short", base])
+    base_sha = out.strip()
+    rec = dict(property=a.pid, variant=a.variant, ran=[], confirmed=False, base=base_sha)
     try:
         # demo files: every *.go in src; destination from demo_path.txt (first token of each line that ends in .go)
         dp = open(os.path.join(a.src, "demo_path.txt")).read()
@@ -105,6 +117,7 @@ def main():
                    author="independent sub-agent given only the property text and a scratch worktree of /repo",
                    coordinator_confirmation=rec["ran"] or old.get("coordinator_confirmation"),
                    confirmed=rec["confirmed"] if rec["confirmed"] is not None else old.get("confirmed"),
+                   repo_base=rec["base"],
                    checks_run=dict(old.get("checks_run", {}), **rec["checks"]))
         json.dump(out, open(os.path.join(dst, "meta.json"), "w"), indent=1)
     else:
